@@ -197,6 +197,9 @@ func Explore(prog *ssa.Program, fn *ssa.Function, e *Engine) (infra string) {
 			e.drain()
 			e.endPath()
 		}()
+		if os.Getenv("GOSYM_TRAILS") != "" && e.Paths < 40 {
+			fmt.Fprintln(os.Stderr, "TRAIL", e.Paths, e.trailChoices())
+		}
 		e.killAll()
 		if fatal != nil {
 			panic(fatal)
